@@ -34,3 +34,23 @@ def comp_in(*names):
         c = (d.get('component') or '').replace('_other_slot', '')
         return c in s or any(c.startswith(n) for n in s if n.endswith('_'))
     return f
+
+
+def driver_traces(run, n, langs=('LTiny', 'LDef', 'LTrans')):
+    """(C) code -> spec: random API histories on real attack graphs under the graph tracer, validated by TLC."""
+    import random
+    from harness import drivers, materialise
+    from harness.gtracer import GTRACER
+    L = run.libs()
+    GTRACER.install()
+    try:
+        for lang in langs:
+            GTRACER.reset()
+            ctx = materialise.lang_ctx(L[lang], key=lang)
+            rng = random.Random(run.seed * 104729 + len(lang))
+            for _ in range(n):
+                drivers.drive_graph(ctx, rng, steps=rng.choice([8, 14, 20]))
+            run.trace_validate_graph(GTRACER.dump(), 'random graph driver ' + lang)
+    finally:
+        GTRACER.uninstall()
+        GTRACER.reset()
